@@ -126,6 +126,8 @@ ApplyBin(op, a, b) ==
       [] op = ">"  -> BoolV(x > y)
       [] op = ">=" -> BoolV(x >= y)
       [] OTHER -> ErrV("stuck:operator")
+  ELSE IF a.k = "float" /\ b.k = "float" /\ ("v" \notin DOMAIN a \/ "v" \notin DOMAIN b) THEN
+    ErrV("range")      \* opaque float atoms [k |-> "float", bits |-> "..."]: outside the exact half-integer domain
   ELSE IF a.k = "float" /\ b.k = "float" THEN
     LET x == a.v  y == b.v IN
     CASE op = "+"  -> IF Abs(x) < Lim \div 2 /\ Abs(y) < Lim \div 2 THEN FloatV(x + y) ELSE ErrV("range")
@@ -148,7 +150,9 @@ ApplyBin(op, a, b) ==
   ELSE ErrV("stuck:operator")
 
 ApplyNeg(a) == IF a.k = "unspec" THEN ErrV("unspec")
-               ELSE IF a.k = "int" THEN IntV(-a.v) ELSE IF a.k = "float" THEN FloatV(-a.v) ELSE ErrV("stuck:operator")
+               ELSE IF a.k = "int" THEN IntV(-a.v)
+               ELSE IF a.k = "float" THEN (IF "v" \in DOMAIN a THEN FloatV(-a.v) ELSE ErrV("range"))
+               ELSE ErrV("stuck:operator")
 ApplyNot(a) == IF a.k = "unspec" THEN ErrV("unspec")
                ELSE IF a.k = "bool" THEN BoolV(~a.v) ELSE IF a.k = "int" THEN IntV(-a.v - 1) ELSE ErrV("stuck:operator")
 
